@@ -1207,16 +1207,31 @@ udp_timer_cb(void *arg)
 			continue;
 		}
 
-		if (p->dialer && now > p->next_creq) {
+		if (p->dialer && now >= p->next_creq) {
 			udp_send_creq(ep, p);
+		}
+		if (p->next_wake <= now) {
+			// Nothing is left to do for this pipe at that time
+			// (a listener's pipe only waits for its peer's next
+			// refresh): the next event is the dialer's refresh
+			// or the expiry.  Leaving a wake time in the past
+			// made this timer re-arm with a negative sleep, i.e.
+			// spin until the peer's next datagram.
+			p->next_wake = (p->dialer && (p->next_creq < p->expire))
+			    ? p->next_creq
+			    : p->expire;
 		}
 		if (p->next_wake < ep->next_wake) {
 			ep->next_wake = p->next_wake;
 		}
 	}
-	refresh = ep->next_wake == NNI_TIME_NEVER
-	    ? NNG_DURATION_INFINITE
-	    : (nng_duration) (ep->next_wake - now);
+	if (ep->next_wake == NNI_TIME_NEVER) {
+		refresh = NNG_DURATION_INFINITE;
+	} else if (ep->next_wake <= now) {
+		refresh = 1; // never a zero or negative (= special) duration
+	} else {
+		refresh = (nng_duration) (ep->next_wake - now);
+	}
 	nni_sleep_aio(refresh, &ep->timeaio);
 
 	nni_mtx_unlock(&ep->mtx);
